@@ -146,4 +146,11 @@ def fn_spans(lines):
 if __name__ == '__main__':
     r = run_unit(sys.argv[1])
     r.pop('extraction', None)
-    print(json.dumps(r, indent=1)[:6000])
+    if len(sys.argv) > 2 and sys.argv[2] == '--names':
+        print(r['status'], r.get('wall_s'), r.get('reason', ''))
+        for k in sorted(r['functions']):
+            print(('ok   ' if r['functions'][k]['success'] else 'FAIL ') + k)
+        for e in r['errors']:
+            print('ERR', e.get('fn'), '|', e['msg'], '|', e['clause'][:100])
+    else:
+        print(json.dumps(r, indent=1)[:6000])
